@@ -128,10 +128,15 @@ func (r *resourceLock) getTso() (err error) {
 	ctx, cancel := r.genContext(context.Background())
 	defer cancel()
 	tso, err := r.store.GetTimestampOracle(ctx)
+	if err != nil {
+		// keep the last timestamp that was read: Describe() may be consulted by the started-leading
+		// callback at any moment and must never name timestamp 0 once the lock is held
+		return err
+	}
 	r.mu.Lock()
 	r.tso = tso
 	r.mu.Unlock()
-	return err
+	return nil
 }
 
 // Create implements resourcelock.Interface
@@ -151,7 +156,9 @@ func (r *resourceLock) Create(ler resourcelock.LeaderElectionRecord) error {
 	tso, err := r.store.GetTimestampOracle(context.Background())
 	r.mu.Lock()
 	r.lastVal = lerBytes
-	r.tso = tso
+	if err == nil {
+		r.tso = tso
+	}
 	r.mu.Unlock()
 	return err
 }
@@ -181,10 +188,13 @@ func (r *resourceLock) Update(ler resourcelock.LeaderElectionRecord) error {
 	}
 
 	tso, err = r.store.GetTimestampOracle(context.Background())
+	if err != nil {
+		return err
+	}
 	r.mu.Lock()
 	r.tso = tso
 	r.mu.Unlock()
-	return err
+	return nil
 }
 
 // RecordEvent implements resourcelock.Interface
